@@ -34,7 +34,7 @@ static Verdict run(const Case &c) {
         (void)w.deliver(ia, mk_discover(MA, M, 1, 1, (uint16_t)c.c(10), {}));
         (void)w.deliver(ib, mk_discover(M, M, 1, 1, (uint16_t)c.c(10), {}));
     }
-    (void)w.deliver(ia, mk_discover(MA, M, 0, 1, 1, {}));
+    if (!c.c(12)) (void)w.deliver(ia, mk_discover(MA, M, 0, 1, 1, {}));   // cfg[12]: A has not heard any Discover yet when it is ordered to emit (its first frame ever is the Emit)
     (void)w.deliver(ib, mk_discover(M, M, 0, 1, 1, {}));
     if (ic3 >= 0) (void)w.deliver(ic3, mk_discover(M, M, 0, 1, 1, {}));
     bool queried = false;
@@ -138,6 +138,7 @@ int main(int argc, char **argv) {
         c.cfg.push_back(*gx::pick({1, 1, 1, 0}));                                 // a third responder on the segment (cfg[9])
         c.cfg.push_back(*gx::pick({0, 0, 0, 1, 7}));                              // first contact through quick discovery with this generation (cfg[10], 0 = no)
         c.cfg.push_back(*gx::pick({0, 0, 0, 1}));                                 // the mapper reaches A through B (cfg[11])
+        c.cfg.push_back(*gx::pick({0, 0, 0, 0, 1}));                              // A's first frame ever is the Emit (cfg[12])
         if (*gx::chance(20)) {
             // capacity family: A emits about as many frames with pairwise distinct sources towards B as one QueryResp of B holds, then B is queried
             size_t capq = (h.mtu - 34) / 20, cape = (h.mtu - 34) / 14;
